@@ -758,12 +758,24 @@ def r08_1(prog, rep, rid='R08.1'):
               "unconditionally", loc=f.loc(),
               history='cancel of a waiting task never reaches the wait pool')
     back_al0 = I.Aliases(prog, None, {f.name: f}, 'self._raptor_tasks')
-    comps = [n for n in walk(f.node) if isinstance(n, ast.ListComp) and
-             back_al0.is_rooted_expr(f.name, n.generators[0].iter)]
+    # (a generator expression selects the same elements as the list
+    # comprehension; that it is evaluated lazily, while the loop which consumes
+    # it changes the backlog, is R08.5's business)
+    def uncopy(e):
+        # list(<selection>) / tuple(..) / sorted(..): the same elements
+        while isinstance(e, ast.Call) and isinstance(e.func, ast.Name) and \
+                e.func.id in ('list', 'tuple', 'sorted') and \
+                len(e.args) == 1 and not e.keywords:
+            e = e.args[0]
+        return e
+    comps = [n for n in walk(f.node)
+             if isinstance(n, (ast.ListComp, ast.GeneratorExp)) and
+             back_al0.is_rooted_expr(f.name, uncopy(n.generators[0].iter))]
     parent = {}
     for n in walk(f.node):
-        if isinstance(n, (ast.Assign, ast.AugAssign)) and n.value in comps:
-            parent[id(n.value)] = n
+        if isinstance(n, (ast.Assign, ast.AugAssign)) and \
+                uncopy(n.value) in comps:
+            parent[id(uncopy(n.value))] = n
     picks, keeps = [], []     # selection by `in`, retention by `not in`
     for lc in comps:
         gen = lc.generators[0]
@@ -824,7 +836,7 @@ def r08_1(prog, rep, rid='R08.1'):
                     Ls.add(n.value.id)
         sel = set()          # names holding the filtered selection
         for n in walk(f.node):
-            if isinstance(n, ast.Assign) and n.value in comps and \
+            if isinstance(n, ast.Assign) and uncopy(n.value) in comps and \
                     isinstance(n.targets[0], ast.Name):
                 sel.add(n.targets[0].id)
         back_al = I.Aliases(prog, None, {f.name: f}, 'self._raptor_tasks')
@@ -835,8 +847,11 @@ def r08_1(prog, rep, rid='R08.1'):
             out = set()
             for h in node.loops:
                 hn = g.nodes[h]
-                if hn.kind == 'for' and isinstance(hn.ast.iter, ast.Name) and \
-                        hn.ast.iter.id in sel:
+                if hn.kind != 'for':
+                    continue
+                it = uncopy(hn.ast.iter)
+                if (isinstance(it, ast.Name) and it.id in sel) or \
+                        it in picks:
                     out |= set(stores_in_target(hn.ast.target))
             return out
         collected = removed = False
@@ -975,10 +990,13 @@ def r08_1(prog, rep, rid='R08.1'):
                 loopvars |= set(stores_in_target(g.nodes[h].ast.target))
         okay = src is not None and src.args and \
             isinstance(src.args[0], ast.Name) and src.args[0].id in loopvars
-        truthy = isinstance(a, ast.Name) and any(
-            isinstance(g.nodes[t].ast, ast.Name) and
-            g.nodes[t].ast.id == a.id and lab == 'T'
-            for t, lab in guards(g, n.id))
+        # (get_task answers the task or None)
+        truthy = False
+        for t, lab in guards(g, n.id):
+            te, pol = _strip_none(g.nodes[t].ast)
+            if isinstance(a, ast.Name) and isinstance(te, ast.Name) and \
+                    te.id == a.id and lab == ('T' if pol else 'F'):
+                truthy = True
         rep.check(okay and truthy, rid, f, 'cancel_task is called for '
                   "get_task(uid) with uid iterating arg['uids'], when found",
                   construct=c, message='the executor calls cancel_task(`%s`) '
@@ -1220,15 +1238,33 @@ def r08_5(prog, rep, rid='R08.5', sweep=False):
             raise AnalysisError('R08.5: anchor missing')
         muts = I.iterated_container_mutations(f)
         if sweep:
+            for loop, it, hit in lazy_iterated_mutations(f):
+                rep.info(rid + 's', f, 'loop over the lazy `%s` mutates its '
+                         'source: `%s`' % (short(it, 40), short(hit, 50)),
+                         f.loc(hit))
             for loop, hit in muts:
                 rep.info(rid + 's', f, 'loop over `%s` mutates it: `%s`'
                          % (short(loop.iter, 40), short(hit, 50)),
                          f.loc(hit))
             continue
         rep.saw(f)
-        if not muts:
+        lazy = lazy_iterated_mutations(f)
+        if not muts and not lazy:
             rep.ok(rid, f, '%s: no loop mutates the container it iterates'
                    % f.qual, f.loc())
+        for loop, it, hit in lazy:
+            rep.bad(rid, f, hit, '%s iterates `%s`, which is evaluated lazily '
+                    '(it reads `%s` element by element while the loop runs), '
+                    'and executes `%s` inside the loop without leaving it: '
+                    'the container changes under the iterator, the element '
+                    'following a removed one is skipped' % (
+                        f.qual, short(it, 60), ', '.join(sorted(
+                            _lazy_sources(it))), short(hit, 50)), f.loc(hit),
+                    history='cancel request naming two tasks which are '
+                    'adjacent in the raptor backlog (rt.0, rt.1 of rt.0, '
+                    'rt.1, rt.2): after rt.0 is removed the iterator skips '
+                    'rt.1; it stays in the backlog, is not reported CANCELED '
+                    'and is relayed to the raptor master later')
         for loop, hit in muts:
             rep.bad(rid, f, hit, '%s iterates `%s` and executes `%s` inside '
                     'the loop without leaving it: the element following a '
@@ -1859,15 +1895,14 @@ def _over_pool_levels(e):
     return unparse(e) == POOL
 
 
-def r08_11(prog, rep, rid='R08.11'):
-    rep.rule(rid, 'a loop over the priority levels of the wait pool that '
-             'removes entries and can be left early searches for a single '
-             'uid (bound outside of the loop): a loop that serves several '
-             'named tasks at once visits every level', minimum=1)
-    funcs = _waitpool_funcs(prog)
-    for f in funcs:
+def _level_loops(prog):
+    """(f, g, H, body, exits, keys, inner) for every loop over the priority
+    levels of the wait pool which removes entries and can be left early:
+    exits are the normal edges that leave the body, keys [(removing ast, key
+    expression)], inner the names (re-)bound inside the loop"""
+    out = []
+    for f in _waitpool_funcs(prog):
         g = cfg_of(f)
-        smap = I.stmt_node_map(g)
         pools = _pool_names(f)
         for H in g.nodes:
             if H.kind != 'for' or not _over_pool_levels(H.ast.iter):
@@ -1894,7 +1929,6 @@ def r08_11(prog, rep, rid='R08.11'):
                     keys.append((x, k))
             if not exits or not keys:
                 continue
-            rep.saw(f)
             # names (re-)bound inside the loop: by statements, inner loops or
             # comprehensions
             inner = set()
@@ -1908,47 +1942,743 @@ def r08_11(prog, rep, rid='R08.11'):
                         inner |= set(stores_in_target(t))
                 elif isinstance(x, (ast.AnnAssign, ast.NamedExpr)):
                     inner |= set(stores_in_target(x.target))
-            multi = [(x, k) for x, k in keys
-                     if not names_in(k) or names_in(k) & inner]
-            if multi:
-                # does leaving the loop depend on progress made across the
-                # levels (a set of uids still to be found, ..)?  Then this
-                # rule cannot tell whether the exit is premature
-                carried = set()
-                for x in walk(H.ast, nested=True):
-                    if isinstance(x, ast.AugAssign):
-                        carried |= set(stores_in_target(x.target))
-                    elif isinstance(x, ast.Call) and \
-                            isinstance(x.func, ast.Attribute) and \
-                            isinstance(x.func.value, ast.Name) and \
-                            x.func.attr in ('remove', 'discard', 'pop', 'add',
-                                            'append', 'extend', 'update',
-                                            'difference_update', 'clear'):
-                        carried.add(x.func.value.id)
-                carried -= inner           # fresh in every iteration
-                start = loop_slice(g, H.id)[0]
-                for e in exits:
-                    for t, lab in guards(g, e.src, start=start, within=body):
-                        if reads_through_defs(g, g.nodes[t].ast, g.nodes[t]) \
-                                & carried:
-                            raise AnalysisError(
-                                'UNRECOGNISED-IDIOM %s: early exit from the '
-                                'loop over the wait pool levels depends on '
-                                '`%s`' % (f.where,
-                                          short(g.nodes[t].ast, 40)))
-            x0 = multi[0][0] if multi else keys[0][0]
-            rep.check(not multi, rid, f, 'loop over the wait pool levels at '
-                      'line %d: left early only while searching for one uid'
-                      % H.ast.lineno, construct=H.ast.iter,
-                      message='%s removes several entries per priority level '
-                      '(`%s`) in a loop over the levels of the wait pool which '
-                      'it leaves early: named tasks that wait at the levels '
-                      'not visited stay in the pool' % (f.qual, short(x0, 50)),
-                      loc=f.loc(x0),
-                      history='cancel request naming two waiting tasks of '
-                      'different priority: only the first level that holds '
-                      'one of them is searched; the other task stays in the '
-                      'wait pool, is placed later and runs')
+            out.append((f, g, H, body, exits, keys, inner))
+    return out
+
+
+def r08_11(prog, rep, rid='R08.11'):
+    rep.rule(rid, 'a loop over the priority levels of the wait pool that '
+             'removes entries and can be left early searches for a single '
+             'uid (bound outside of the loop): a loop that serves several '
+             'named tasks at once visits every level', minimum=1)
+    for f, g, H, body, exits, keys, inner in _level_loops(prog):
+        rep.saw(f)
+        multi = [(x, k) for x, k in keys
+                 if not names_in(k) or names_in(k) & inner]
+        if multi:
+            # does leaving the loop depend on progress made across the
+            # levels (a set of uids still to be found, ..)?  Then this
+            # rule cannot tell whether the exit is premature
+            carried = set()
+            for x in walk(H.ast, nested=True):
+                if isinstance(x, ast.AugAssign):
+                    carried |= set(stores_in_target(x.target))
+                elif isinstance(x, ast.Call) and \
+                        isinstance(x.func, ast.Attribute) and \
+                        isinstance(x.func.value, ast.Name) and \
+                        x.func.attr in ('remove', 'discard', 'pop', 'add',
+                                        'append', 'extend', 'update',
+                                        'difference_update', 'clear'):
+                    carried.add(x.func.value.id)
+            carried -= inner           # fresh in every iteration
+            start = loop_slice(g, H.id)[0]
+            for e in exits:
+                for t, lab in guards(g, e.src, start=start, within=body):
+                    if reads_through_defs(g, g.nodes[t].ast, g.nodes[t]) \
+                            & carried:
+                        raise AnalysisError(
+                            'UNRECOGNISED-IDIOM %s: early exit from the '
+                            'loop over the wait pool levels depends on '
+                            '`%s`' % (f.where,
+                                      short(g.nodes[t].ast, 40)))
+        x0 = multi[0][0] if multi else keys[0][0]
+        rep.check(not multi, rid, f, 'loop over the wait pool levels at '
+                  'line %d: left early only while searching for one uid'
+                  % H.ast.lineno, construct=H.ast.iter,
+                  message='%s removes several entries per priority level '
+                  '(`%s`) in a loop over the levels of the wait pool which '
+                  'it leaves early: named tasks that wait at the levels '
+                  'not visited stay in the pool' % (f.qual, short(x0, 50)),
+                  loc=f.loc(x0),
+                  history='cancel request naming two waiting tasks of '
+                  'different priority: only the first level that holds '
+                  'one of them is searched; the other task stays in the '
+                  'wait pool, is placed later and runs')
+
+
+# ------------------------------------------------------------------------------
+# R08.12  the search for one uid through the levels stops only after a hit
+#
+def _carried_names(loop_ast, inner):
+    """names whose value is carried from one iteration of the loop to the
+    next (augmented assignments, containers changed in place)"""
+    carried = set()
+    for x in walk(loop_ast, nested=True):
+        if isinstance(x, ast.AugAssign):
+            carried |= set(stores_in_target(x.target))
+        elif isinstance(x, ast.Call) and \
+                isinstance(x.func, ast.Attribute) and \
+                isinstance(x.func.value, ast.Name) and \
+                x.func.attr in ('remove', 'discard', 'pop', 'add',
+                                'append', 'extend', 'update',
+                                'difference_update', 'clear'):
+            carried.add(x.func.value.id)
+    return carried - inner
+
+
+def _strip_none(e):
+    """(operand, polarity) of `X is not None` / `X is None` / truth of X"""
+    e, pol = strip_truth(e)
+    if isinstance(e, ast.Compare) and len(e.ops) == 1 and \
+            isinstance(e.ops[0], (ast.Is, ast.IsNot, ast.Eq, ast.NotEq)) and \
+            isinstance(e.comparators[0], ast.Constant) and \
+            e.comparators[0].value is None:
+        if isinstance(e.ops[0], (ast.Is, ast.Eq)):
+            pol = not pol
+        e = e.left
+    return e, pol
+
+
+def r08_12(prog, rep, rid='R08.12'):
+    rep.rule(rid, 'the search for one named uid through the priority levels '
+             'of the wait pool is left early only after the entry was found '
+             'and removed at the current level: a miss goes on to the next '
+             'level', minimum=1)
+    for f, g, H, body, exits, keys, inner in _level_loops(prog):
+        if [k for x, k in keys if not names_in(k) or names_in(k) & inner]:
+            continue                      # several uids per level: R08.11
+        rep.saw(f)
+        smap = I.stmt_node_map(g)
+        start = loop_slice(g, H.id)[0]
+        # evidence of a hit: a removal that fails for an absent key (`del
+        # pool[uid]`, `pool.pop(uid)`), or the true edge of a test of what
+        # `pool.pop(uid, <default>)` returned
+        sure, soft = set(), []
+        for x, k in keys:
+            if isinstance(x, ast.Delete) or len(x.args) == 1:
+                sure.add(smap[id(x)].id)
+            else:
+                soft.append(x)
+        hit_edges = set()
+        for n in g.nodes:
+            if n.kind != 'test' or n.id not in body:
+                continue
+            e, pol = _strip_none(n.ast)
+            if isinstance(e, ast.Name):
+                rd = reaching_defs(g, e.id, n.id)
+                if len(rd) == 1 and rd[0][1] is not None:
+                    e = rd[0][1]
+            if any(e is x for x in soft):
+                hit_edges.add((n.id, 'T' if pol else 'F'))
+        loopvars = set(stores_in_target(H.ast.target))
+        knames = set()
+        for x, k in keys:
+            knames |= names_in(k)
+        for e in exits:
+            gs = guards(g, e.src, start=start, within=body)
+            found = e.src in sure or must_pass(g, start, e.src, sure) or \
+                bool(set(gs) & hit_edges)
+            if not found and gs:
+                reads = set()
+                for t, lab in gs:
+                    reads |= reads_through_defs(g, g.nodes[t].ast, g.nodes[t])
+                if not reads & (loopvars | knames | inner | {POOL}):
+                    raise AnalysisError(
+                        'UNRECOGNISED-IDIOM %s: the search through the wait '
+                        'pool levels is left under `%s`' % (
+                            f.where, short(g.nodes[gs[-1][0]].ast, 40)))
+            xn = g.nodes[e.src]
+            rep.check(found, rid, f, 'loop over the wait pool levels at line '
+                      '%d: left (line %s) only after the entry was removed'
+                      % (H.ast.lineno, getattr(xn.ast, 'lineno', '?')),
+                      construct='level-search:%s' % unparse(H.ast.iter),
+                      message='%s searches the priority levels of the wait '
+                      'pool for one uid (`%s`) and leaves the loop at line %s '
+                      'on a path on which nothing was found at the current '
+                      'level: the levels not visited yet are never searched, '
+                      'a named task waiting there stays in the pool, is '
+                      'placed when resources free up and runs' % (
+                          f.qual, short(keys[0][0], 50),
+                          getattr(xn.ast, 'lineno', '?')),
+                      loc=f.loc(xn.ast if xn.ast is not None else H.ast),
+                      history='one core, run.0 placed; wait.0 (priority 0) '
+                      'and wait.1 (priority 5) wait; cancel request naming '
+                      'wait.1: only the first level (created by wait.0) is '
+                      'searched, wait.1 stays in the wait pool and is never '
+                      'reported CANCELED')
+
+
+# ------------------------------------------------------------------------------
+# R08.13  the components which handle cancel requests are handed the request
+#
+def _modname(k):
+    rel = k.module.rel[:-3]
+    if rel.endswith('__init__'):
+        rel = rel[:-len('__init__')].rstrip('/')
+    return '.'.join(['radical', 'pilot'] + [p for p in rel.split('/') if p])
+
+
+_IDENT_ATTRS = ('uid', '_uid', 'ctype', '_ctype', '__class__', 'name',
+                '_name', '_owner')
+
+
+def _is_self(e):
+    return isinstance(e, ast.Name) and e.id == 'self'
+
+
+def _mentions_identity(e):
+    """expression reads who the component is (class, module, uid)"""
+    for x in ast.walk(e):
+        if isinstance(x, ast.Call) and isinstance(x.func, ast.Name) and \
+                x.func.id in ('repr', 'str', 'type', 'isinstance', 'id') and \
+                x.args and _is_self(x.args[0]):
+            return True
+        if isinstance(x, ast.Attribute) and _is_self(x.value) and \
+                x.attr in _IDENT_ATTRS:
+            return True
+    return False
+
+
+class _Identity:
+    """Abstract evaluation of tests on the identity of a component instance
+    of class K: `repr(self)` (the default repr: module path and class name),
+    `self.ctype`, `type(self).__name__` / `.__module__`, `self.uid` (the
+    component kind the factory table of BaseComponent.create files the class
+    under, plus a counter), `isinstance(self, C)`."""
+
+    def __init__(self, prog, f, g, k):
+        self.prog, self.f, self.g, self.k = prog, f, g, k
+        self.mro = prog.mro(k)
+
+    def _kind(self):
+        comp = self.prog.cls(*COMP)
+        cr = self.prog.find_method(comp, 'create')
+        if cr is None:
+            return None
+        li = cr.module.local_imports(cr.node)
+        kinds = []
+        for n in walk(cr.node):
+            if not isinstance(n, ast.Dict):
+                continue
+            for kk, v in zip(n.keys, n.values):
+                name = self.prog.fold(cr.module, kk) if kk is not None \
+                    else UNKNOWN
+                if not isinstance(name, str):
+                    continue
+                r = self.prog.resolve(cr.module, v, li)
+                if r and r[0] == 'ext' and \
+                        r[1].startswith('radical.pilot.'):
+                    parts = r[1].split('.')[2:]
+                    rel = self.prog._find_module(parts[:-1])
+                    r = self.prog.lookup(self.prog.modules[rel], parts[-1]) \
+                        if rel else None
+                if r and r[0] == 'class' and r[1] in self.mro:
+                    kinds.append(name)
+        return kinds[0] if len(kinds) == 1 else None
+
+    def value(self, e, node, depth=3):
+        """string the expression evaluates to, None if not known"""
+        if isinstance(e, ast.Constant) and isinstance(e.value, str):
+            return e.value
+        mod, name = _modname(self.k), self.k.name
+        if isinstance(e, ast.Call) and isinstance(e.func, ast.Name) and \
+                e.func.id == 'repr' and len(e.args) == 1 and \
+                _is_self(e.args[0]) and not e.keywords:
+            if any('__repr__' in c.methods for c in self.mro):
+                return None
+            return '<%s.%s object at 0x7f0000000000>' % (mod, name)
+        if isinstance(e, ast.Attribute):
+            if _is_self(e.value) and e.attr in ('ctype', '_ctype'):
+                return '%s.%s' % (mod, name)
+            if _is_self(e.value) and e.attr in ('uid', '_uid'):
+                kind = self._kind()
+                return None if kind is None else kind + '.0000'
+            v = e.value
+            is_cls = (isinstance(v, ast.Attribute) and _is_self(v.value) and
+                      v.attr == '__class__') or (
+                isinstance(v, ast.Call) and isinstance(v.func, ast.Name) and
+                v.func.id == 'type' and len(v.args) == 1 and
+                _is_self(v.args[0]))
+            if is_cls and e.attr in ('__name__', '__qualname__'):
+                return name
+            if is_cls and e.attr == '__module__':
+                return mod
+            return None
+        if isinstance(e, ast.Call) and isinstance(e.func, ast.Attribute) and \
+                e.func.attr in ('lower', 'upper', 'strip') and not e.args:
+            v = self.value(e.func.value, node, depth)
+            return None if v is None else getattr(v, e.func.attr)()
+        if isinstance(e, ast.BinOp) and isinstance(e.op, ast.Add):
+            a, b = self.value(e.left, node, depth), \
+                self.value(e.right, node, depth)
+            return None if a is None or b is None else a + b
+        if isinstance(e, ast.Name) and depth > 0:
+            rd = reaching_defs(self.g, e.id, node.id)
+            if len(rd) == 1 and rd[0][1] is not None:
+                return self.value(rd[0][1], rd[0][0], depth - 1)
+        return None
+
+    def test(self, e, node, depth=3):
+        """True / False / None (not known) for an instance of K"""
+        e, pol = strip_truth(e)
+        r = None
+        if isinstance(e, ast.Compare) and len(e.ops) == 1:
+            a = self.value(e.left, node, depth)
+            op = e.ops[0]
+            if isinstance(op, (ast.In, ast.NotIn)) and isinstance(
+                    e.comparators[0], (ast.Tuple, ast.List, ast.Set)):
+                bs = [self.value(x, node, depth)
+                      for x in e.comparators[0].elts]
+                if a is not None and None not in bs:
+                    r = a in bs
+            else:
+                b = self.value(e.comparators[0], node, depth)
+                if a is not None and b is not None:
+                    if isinstance(op, (ast.In, ast.NotIn)):
+                        r = a in b
+                    elif isinstance(op, (ast.Eq, ast.NotEq)):
+                        r = a == b
+            if r is not None and isinstance(op, (ast.NotIn, ast.NotEq)):
+                r = not r
+        elif isinstance(e, ast.Call) and isinstance(e.func, ast.Attribute) and \
+                e.func.attr in ('startswith', 'endswith') and \
+                len(e.args) == 1 and not e.keywords:
+            a = self.value(e.func.value, node, depth)
+            arg = e.args[0]
+            bs = [self.value(x, node, depth) for x in (
+                arg.elts if isinstance(arg, ast.Tuple) else [arg])]
+            if a is not None and None not in bs:
+                r = getattr(a, e.func.attr)(tuple(bs))
+        elif isinstance(e, ast.Call) and isinstance(e.func, ast.Name) and \
+                e.func.id == 'isinstance' and len(e.args) == 2 and \
+                _is_self(e.args[0]):
+            ts = e.args[1].elts if isinstance(e.args[1], ast.Tuple) \
+                else [e.args[1]]
+            li = self.f.module.local_imports(self.f.node)
+            rs = [self.prog.resolve(self.f.module, t, li) for t in ts]
+            if all(x and x[0] == 'class' for x in rs):
+                r = any(x[1] in self.mro for x in rs)
+        elif isinstance(e, ast.BoolOp):
+            vs = [self.test(v, node, depth) for v in e.values]
+            if isinstance(e.op, ast.And):
+                r = False if False in vs else (None if None in vs else True)
+            else:
+                r = True if True in vs else (None if None in vs else False)
+        elif isinstance(e, ast.Name) and depth > 0:
+            rd = reaching_defs(self.g, e.id, node.id)
+            if len(rd) == 1 and rd[0][1] is not None:
+                r = self.test(rd[0][1], rd[0][0], depth - 1)
+        return None if r is None else (r == pol)
+
+    def about_identity(self, e, node, depth=3):
+        if _mentions_identity(e):
+            return True
+        if depth > 0:
+            for x in ast.walk(e):
+                if isinstance(x, ast.Name) and isinstance(x.ctx, ast.Load) \
+                        and not _is_self(x):
+                    for dn, val in reaching_defs(self.g, x.id, node.id):
+                        if val is not None and self.about_identity(
+                                val, dn, depth - 1):
+                            return True
+        return False
+
+
+def r08_13(prog, rep, rid='R08.13'):
+    sb, eb = prog.cls(*SBASE), prog.cls(*EBASE)
+    classes = []
+    for base in (sb, eb):
+        for k in [base] + list(prog.subclasses(base, strict=True)):
+            if (base, k) not in classes:
+                classes.append((base, k))
+    rep.rule(rid, 'BaseComponent._control_cb hands a cancel_tasks request on '
+             'to control_cb() of every agent scheduler and executor class: '
+             'the tests it makes on the identity of the component (repr / '
+             'class / module / uid against string constants) hold for the '
+             'names these classes really carry', minimum=len(classes))
+    comp = prog.cls(*COMP)
+    f = prog.find_method(comp, '_control_cb')
+    rep.saw(f)
+    g = cfg_of(f)
+    smap = I.stmt_node_map(g)
+    starts = []
+    for n in g.nodes:
+        ct = _cmd_test(n, 'cancel_tasks')
+        if ct:
+            starts += [e.dst for e in g.succ[n.id] if e.label == ct[1]]
+    if not starts:
+        raise AnalysisError('UNRECOGNISED-IDIOM %s: no cancel_tasks branch'
+                            % f.where)
+    targets = {smap[id(c)].id for c in calls_in(f.node)
+               if call_name(c) == 'self.control_cb' and id(c) in smap}
+    open_reach = set()
+    for s in starts:
+        open_reach |= g.reachable(s)
+    if not targets & open_reach:
+        # handed on by a helper this rule does not follow?
+        for c in calls_in(f.node):
+            if id(c) in smap and smap[id(c)].id in open_reach and \
+                    call_name(c).startswith('self.'):
+                h = prog.resolve_call(f, c, comp)
+                if h is not None and any(
+                        call_name(x) == 'self.control_cb'
+                        for x in calls_in(h.node)):
+                    raise AnalysisError(
+                        'UNRECOGNISED-IDIOM %s: the request is handed to '
+                        'control_cb by %s' % (f.where, h.qual))
+    tests = [n for n in g.nodes if n.kind == 'test' and n.id in open_reach]
+    for base, k in classes:
+        h = prog.find_method(k, 'control_cb')
+        if h is None or not cmd_branches(prog, h, 'cancel_tasks')[1]:
+            # the class does not act on the request in control_cb
+            rep.ok(rid, f, '%s: control_cb has no cancel_tasks branch'
+                   % k.name, f.loc())
+            continue
+        idn = _Identity(prog, f, g, k)
+        skip, said = [], []
+        for t in tests:
+            v = idn.test(t.ast, t)
+            if v is None:
+                if idn.about_identity(t.ast, t):
+                    raise AnalysisError(
+                        'UNRECOGNISED-IDIOM %s: identity test `%s` is not '
+                        'evaluated for %s' % (f.where, short(t.ast, 50),
+                                              k.name))
+                continue
+            skip.append((t.id, 'F' if v else 'T'))
+            said.append('`%s` is %s' % (short(t.ast, 50), v))
+        reach = set()
+        for s in starts:
+            reach |= g.reachable(s, skip_edges=skip)
+        what = 'scheduler' if base is sb else 'executor'
+        rep.check(bool(targets & reach), rid, f, '%s gets cancel_tasks '
+                  'requests through control_cb' % k.name,
+                  construct='handover:%s' % what,
+                  message='BaseComponent._control_cb never hands a '
+                  'cancel_tasks request to control_cb() of the agent %s '
+                  'class %s (module %s): for this class %s.  %s, which %s, is '
+                  'never called for the request - the uids are only appended '
+                  'to the cancel list, which is consulted when a task '
+                  '*enters* a component' % (
+                      what, k.name, _modname(k), '; '.join(said) or
+                      'no call of self.control_cb is reachable', h.qual,
+                      'takes named tasks out of the wait pool and the raptor '
+                      'backlog' if base is sb else 'kills the processes of '
+                      'named running tasks'), loc=f.loc(),
+                  history='one core; run.0 placed, wait.0 and wait.1 wait; '
+                  'cancel request naming wait.1: no _CANCEL item is queued '
+                  'for the scheduling process, wait.1 stays in the wait pool '
+                  'and never ends as CANCELED' if base is sb else
+                  'cancel request naming a task that is running: '
+                  'cancel_task is never called, the process is not killed, '
+                  'the task completes normally')
+
+
+# ------------------------------------------------------------------------------
+# R08.14  every uid of a request is served
+#
+_COPIES = ('list', 'set', 'sorted', 'tuple', 'reversed', 'frozenset', 'iter',
+           'enumerate', 'as_list')
+
+
+def _is_request(g, e, node, base, depth=3):
+    """the expression is the collection of uids of the request, or what was
+    selected by them: `base(e)` says what the request itself is; copies
+    (list(..), set(..), sorted(..)), local names all of whose reaching
+    definitions are such values, comprehensions over the request or filtered
+    by membership in it, and set intersections with it count as well"""
+    while isinstance(e, ast.Call) and dotted(e.func).split('.')[-1] in \
+            _COPIES and e.args:
+        e = e.args[0]
+    if base(e):
+        return True
+    if depth <= 0:
+        return False
+    if isinstance(e, ast.Name):
+        rd = reaching_defs(g, e.id, node.id)
+        return bool(rd) and all(
+            v is not None and _is_request(g, v, dn, base, depth - 1)
+            for dn, v in rd)
+    if isinstance(e, (ast.ListComp, ast.SetComp, ast.GeneratorExp)):
+        for gen in e.generators:
+            if _is_request(g, gen.iter, node, base, depth - 1):
+                return True
+            for c in gen.ifs:
+                c, pol = strip_truth(c)
+                if isinstance(c, ast.Compare) and len(c.ops) == 1 and \
+                        isinstance(c.ops[0], ast.In) and _is_request(
+                            g, c.comparators[0], node, base, depth - 1):
+                    return True
+        return False
+    if isinstance(e, ast.Call) and isinstance(e.func, ast.Attribute) and \
+            e.func.attr == 'intersection' and e.args:
+        return _is_request(g, e.func.value, node, base, depth - 1) or \
+            _is_request(g, e.args[0], node, base, depth - 1)
+    if isinstance(e, ast.BinOp) and isinstance(e.op, ast.BitAnd):
+        return _is_request(g, e.left, node, base, depth - 1) or \
+            _is_request(g, e.right, node, base, depth - 1)
+    return False
+
+
+def _request_loops(prog):
+    """[(f, g, H, what)] loops (cfg head nodes) in the cancel branches of the
+    agent scheduler / executor whose iteration domain is the uids of the
+    request (or what was selected by them), or which enclose such a loop /
+    comprehension; plus [(f, comprehension ast)] for request domains iterated
+    by comprehensions"""
+    loops, comps = [], []
+
+    def collect(f, g, region, base):
+        smap = I.stmt_node_map(g)
+        req = set()
+        for H in g.nodes:
+            if H.kind == 'for' and H.id in region and \
+                    _is_request(g, H.ast.iter, H, base):
+                req.add(H.id)
+        cps = []
+        for n in walk(f.node):
+            if isinstance(n, (ast.ListComp, ast.SetComp, ast.DictComp,
+                              ast.GeneratorExp)) and id(n) in smap and \
+                    smap[id(n)].id in region and any(
+                        _is_request(g, gen.iter, smap[id(n)], base)
+                        for gen in n.generators):
+                cps.append(n)
+        for H in g.nodes:
+            if H.kind != 'for' or H.id not in region:
+                continue
+            body = g.loop_body[H.id]
+            if H.id in req:
+                loops.append((f, g, H, 'iterates the uids of the request'))
+            elif req & body or any(smap[id(c)].id in body for c in cps):
+                loops.append((f, g, H, 'encloses the work for the uids of '
+                              'the request'))
+        comps.extend((f, c) for c in cps)
+
+    for anchor in (SBASE, EBASE):
+        f = prog.find_method(prog.cls(*anchor), 'control_cb')
+        g, brs = cmd_branches(prog, f, 'cancel_tasks')
+        if not brs:
+            raise AnalysisError('UNRECOGNISED-IDIOM %s: no cancel_tasks '
+                                'branch' % f.where)
+        av = arg_var(f)
+
+        def base(e, av=av):
+            if isinstance(e, ast.Subscript) and \
+                    isinstance(e.slice, ast.Constant) and \
+                    e.slice.value == 'uids':
+                return isinstance(e.value, ast.Name) and e.value.id == av
+            return isinstance(e, ast.Call) and \
+                isinstance(e.func, ast.Attribute) and e.func.attr == 'get' \
+                and isinstance(e.func.value, ast.Name) and \
+                e.func.value.id == av and e.args and \
+                isinstance(e.args[0], ast.Constant) and \
+                e.args[0].value == 'uids'
+        collect(f, g, brs[0][1], base)
+    # the scheduling process: items (uids, _CANCEL) pulled from the queue
+    sb = prog.cls(*SBASE)
+    for f in sb.methods.values():
+        g = None
+        for a in walk(f.node):
+            if not (isinstance(a, ast.Assign) and len(a.targets) == 1 and
+                    isinstance(a.targets[0], (ast.Tuple, ast.List)) and
+                    isinstance(a.value, ast.Call) and
+                    isinstance(a.value.func, ast.Attribute) and
+                    a.value.func.attr in ('get', 'get_nowait') and
+                    '_queue_sched' in unparse(a.value.func.value)):
+                continue
+            names = {x.id for x in a.targets[0].elts
+                     if isinstance(x, ast.Name)}
+            g = g or cfg_of(f)
+            for n in g.nodes:
+                if n.kind != 'test':
+                    continue
+                t, pol = strip_truth(n.ast)
+                if isinstance(t, ast.Name):       # the test bound to a name
+                    rd = reaching_defs(g, t.id, n.id)
+                    if len(rd) == 1 and rd[0][1] is not None:
+                        t, p2 = strip_truth(rd[0][1])
+                        pol = pol == p2
+                if not isinstance(t, ast.Compare) or \
+                        len(t.ops) != 1 or not isinstance(
+                            t.ops[0], (ast.Eq, ast.NotEq, ast.Is,
+                                       ast.IsNot)) or \
+                        unparse(t.comparators[0]) != 'self._CANCEL' or \
+                        not isinstance(t.left, ast.Name) or \
+                        t.left.id not in names:
+                    continue
+                lab = 'T' if isinstance(t.ops[0], (ast.Eq, ast.Is)) == pol \
+                    else 'F'
+                rt, rf = set(), set()
+                for e in g.succ[n.id]:
+                    if e.label == lab:
+                        rt |= g.reachable(e.dst, no_back=True)
+                    elif e.label in ('T', 'F'):
+                        rf |= g.reachable(e.dst, no_back=True)
+                data = names - {t.left.id}
+                collect(f, g, rt - rf, lambda e, data=data: isinstance(
+                    e, ast.Name) and e.id in data)
+    return loops, comps
+
+
+_SERVE = ('cancel_task', 'remove', 'pop', 'popitem', 'discard', 'append',
+          'extend')
+
+
+def r08_14(prog, rep, rid='R08.14'):
+    rep.rule(rid, 'a loop of a cancel handler that serves the uids of a '
+             'request (kills, removes, collects per uid) is not left by '
+             'break / return from within an iteration on account of the '
+             'current uid: every named uid is visited', minimum=2)
+    loops, comps = _request_loops(prog)
+    for f, c in comps:
+        rep.saw(f)
+        rep.ok(rid, f, '`%s` visits every uid of the request' % short(c, 50),
+               f.loc(c))
+    for f, g, H, what in loops:
+        rep.saw(f)
+        body = g.loop_body[H.id]
+        serves = any(isinstance(x, ast.Delete) or (
+            isinstance(x, ast.Call) and isinstance(x.func, ast.Attribute) and
+            (x.func.attr in _SERVE or (_is_self(x.func.value) and
+                                       not I.is_handon(x))))
+            for x in walk(H.ast, nested=True))
+        if not serves:
+            continue
+        exits = [e for nid in body for e in g.succ[nid]
+                 if e.label in NORMAL and e.dst not in body and
+                 e.dst != H.id]
+        where = 'loop `for %s in %s` at line %d' % (
+            short(H.ast.target, 20), short(H.ast.iter, 40), H.ast.lineno)
+        if not exits:
+            rep.ok(rid, f, '%s (%s) is never left early' % (where, what),
+                   f.loc(H.ast))
+            continue
+        inner = set()
+        for x in walk(H.ast, nested=True):
+            if isinstance(x, (ast.For, ast.comprehension)):
+                inner |= set(stores_in_target(x.target))
+            elif isinstance(x, ast.Assign):
+                for t in x.targets:
+                    inner |= set(stores_in_target(t))
+            elif isinstance(x, (ast.AnnAssign, ast.NamedExpr)):
+                inner |= set(stores_in_target(x.target))
+        carried = _carried_names(H.ast, inner)
+        start = loop_slice(g, H.id)[0]
+        for e in exits:
+            gs = guards(g, e.src, start=start, within=body)
+            reads = set()
+            for t, lab in gs:
+                reads |= reads_through_defs(g, g.nodes[t].ast, g.nodes[t])
+            if reads & carried:
+                raise AnalysisError(
+                    'UNRECOGNISED-IDIOM %s: %s is left depending on `%s`, '
+                    'which is carried across the iterations' % (
+                        f.where, where, sorted(reads & carried)[0]))
+            xn = g.nodes[e.src]
+            okay = bool(gs) and not reads & inner
+            cond = ' and '.join('`%s` is %s' % (
+                short(g.nodes[t].ast, 40), 'true' if lab == 'T' else 'false')
+                for t, lab in gs) or 'unconditionally'
+            rep.check(okay, rid, f, '%s (%s): left early only for a reason '
+                      'that does not depend on the current element' % (
+                          where, what), construct='request-loop:%s' % unparse(
+                              H.ast.iter),
+                      message='%s: the %s %s and is left at line %s %s: the '
+                      'uids of the request that follow the current one are '
+                      'never looked at - the tasks they name are not taken '
+                      'out / not killed and complete normally' % (
+                          f.qual, where, what, getattr(xn.ast, 'lineno', '?'),
+                          'when ' + cond if gs else cond), loc=f.loc(
+                              xn.ast if xn.ast is not None else H.ast),
+                      history="cancel request ['wait.7', 'run.0'] where the "
+                      "first uid is not held by this component (still with "
+                      "the scheduler, already finished, another executor "
+                      "instance): the handling of the request ends at "
+                      "'wait.7'; run.0 keeps running, keeps its cores and "
+                      "ends as DONE")
+
+
+# ------------------------------------------------------------------------------
+# R08.5b  lazy iteration over a container that the loop body changes
+#
+_LAZY_CALLS = ('filter', 'map', 'enumerate', 'zip', 'iter',
+               'islice', 'chain', 'takewhile', 'dropwhile', 'filterfalse')
+
+
+def _lazy_sources(e):
+    """texts of the access paths a lazily evaluated iterable reads its
+    elements from while it is being consumed: generator expressions and the
+    lazy builtins (filter, map, enumerate, zip, iter, reversed, itertools);
+    a path itself is live too.  Copies (list(E), sorted(E), E[:], a list
+    comprehension) are evaluated once and read nothing later."""
+    if e is None:
+        return set()
+    if I.is_path(e) and not (isinstance(e, ast.Subscript) and
+                            isinstance(e.slice, ast.Slice)):
+        return {unparse(e)}
+    if isinstance(e, ast.GeneratorExp):
+        # the first iterable is bound when the generator is created but read
+        # lazily all the same; the others are evaluated lazily altogether
+        out = set()
+        for gen in e.generators:
+            out |= _lazy_sources(gen.iter)
+        return out
+    if isinstance(e, ast.Call) and dotted(e.func).split('.')[-1] in \
+            _LAZY_CALLS:
+        out = set()
+        for a in e.args:
+            if not isinstance(a, ast.Lambda):
+                out |= _lazy_sources(a)
+        return out
+    if isinstance(e, ast.Call) and isinstance(e.func, ast.Attribute) and \
+            e.func.attr in ('keys', 'values', 'items') and not e.args:
+        return _lazy_sources(e.func.value)
+    return set()
+
+
+def lazy_iterated_mutations(f):
+    """[(for ast, lazy iterable ast, mutating ast node)]: a `for x in IT`
+    where IT is (a local name bound to) a lazily evaluated view of a container
+    E - a generator expression, filter(), enumerate(), .. - and the body
+    removes from / adds to E and goes on iterating.  The plain `for x in E`
+    is I.iterated_container_mutations."""
+    out = []
+    g = cfg_of(f)
+    for n in g.nodes:
+        if n.kind != 'for':
+            continue
+        it = n.ast.iter
+        if isinstance(it, ast.Name):
+            rd = reaching_defs(g, it.id, n.id)
+            if len(rd) != 1 or rd[0][1] is None:
+                continue
+            it = rd[0][1]
+            if I.is_path(it):
+                continue                 # an alias: not decided here
+        elif I.is_path(it):
+            continue                     # I.iterated_container_mutations
+        srcs = _lazy_sources(it)
+        if not srcs:
+            continue
+        body = g.loop_body[n.id]
+        for m in g.stmt_nodes():
+            if m.id not in body or m.kind != 'stmt':
+                continue
+            hit = None
+            for c in calls_in(m.ast):
+                if isinstance(c.func, ast.Attribute) and c.func.attr in \
+                        ('remove', 'pop', 'insert', 'append', 'clear',
+                         'extend', 'popitem') and \
+                        unparse(c.func.value) in srcs:
+                    hit = c
+            if isinstance(m.ast, ast.Delete):
+                for t in m.ast.targets:
+                    if isinstance(t, ast.Subscript) and \
+                            unparse(t.value) in srcs:
+                        hit = m.ast
+            if hit is None:
+                continue
+            goes_on = False
+            for e in g.succ[m.id]:
+                if e.label == 'exc':
+                    continue
+                seen = g.reachable(e.dst, skip_nodes={n.id}) | {e.dst}
+                if any(ed.dst == n.id and ed.back for x in seen | {m.id}
+                       for ed in g.succ[x]):
+                    goes_on = True
+            if goes_on:
+                out.append((n.ast, it, hit))
+    return out
 
 
 # ------------------------------------------------------------------------------
@@ -1977,7 +2707,17 @@ def run(prog, rep, tier):
         "whole priority level of the wait pool.  R08.10: the result of "
         "poll() is compared with None, not tested for truth.  R08.11: a "
         "loop over the wait pool levels that removes entries and can be left "
-        "early searches for one uid only.")
+        "early searches for one uid only.  R08.12: that search is left "
+        "early only on a path on which the entry was found and removed.  "
+        "R08.13: the identity tests under which BaseComponent._control_cb "
+        "hands the request to control_cb() hold for every agent scheduler "
+        "and executor class (evaluated on the module / class names and the "
+        "component kinds of the factory table).  R08.14: loops that serve "
+        "the uids of a request are not left from within an iteration on "
+        "account of the current uid.  R08.5 also covers lazily evaluated "
+        "iterables (generator expression, filter, enumerate ..) over a "
+        "container the loop body changes.  R08.15 (= R05.13 re-evaluated): "
+        "the client replay of a CANCELED notification ends with CANCELED.")
     rep.undecided = ('delivery timing of the request relative to the task '
         '(covered per stage by the rules above, not as a global history); '
         'whether os.killpg reaches the task processes (process groups).')
@@ -1993,6 +2733,13 @@ def run(prog, rep, tier):
     rep.attempt(r08_9, prog, rep)
     rep.attempt(r08_10, prog, rep)
     rep.attempt(r08_11, prog, rep)
+    rep.attempt(r08_12, prog, rep)
+    rep.attempt(r08_13, prog, rep)
+    rep.attempt(r08_14, prog, rep)
+    # "it ends as CANCELED": on the client the notification CANCELED makes the
+    # Task object final only if the replay applies the notified state itself
+    from .c05 import r05_13
+    rep.attempt(r05_13, prog, rep, rid='R08.15')
     from .c04 import r04_5
     rep.attempt(r04_5, prog, rep, rid='R04.5')
     from .c07 import r07_2, r07_7
@@ -2026,6 +2773,10 @@ _NRM = "            if not isinstance(uids, list):\n                uids = [uids
 _RAP = "                for queue in self._raptor_tasks:\n                    matches = [t for t in self._raptor_tasks[queue]\n                                       if t['uid'] in uids]\n                    for task in matches:\n                        to_cancel.append(task)\n                        self._raptor_tasks[queue].remove(task)\n"
 _ARB = "        with self._check_lock:\n            if tid not in self._tasks:\n                return\n            try:\n                del self._tasks[tid]\n            except KeyError:\n                pass\n"
 _CBR = "                    for uid in data:\n                        for priority in self._waitpool:\n                            task = self._waitpool[priority].get(uid)\n                            if task:\n                                to_cancel.append(task)\n                                del self._waitpool[priority][uid]\n                                break\n"
+
+_HND = "            if 'agent.scheduler' in repr(self) or \\\n               'agent.executing' in repr(self):\n                self.control_cb(topic, msg)\n                return\n"
+_EXL = "            for tid in arg['uids']:\n                task = self.get_task(tid)\n                if task:\n                    self.cancel_task(task)\n"
+_PSD = "                        passed = passed[-1:]\n"
 
 MUTATIONS = [
     dict(name='R08.1 cancel list extended for every command', rules=('R08.1',), edits=[
@@ -2168,6 +2919,53 @@ MUTATIONS = [
         (_S, _CBR, "                    uids      = set(data)\n                    for priority in self._waitpool:\n                        pool = self._waitpool[priority]\n                        hits = uids.intersection(pool)\n                        if hits:\n                            to_cancel += [pool.pop(uid) for uid in hits]\n                            break\n")]),
     dict(name='R08.11 same with an explicit inner loop', rules=('R08.11',), edits=[
         (_S, _CBR, "                    for priority in self._waitpool:\n                        pool = self._waitpool[priority]\n                        found = [u for u in data if u in pool]\n                        for u in found:\n                            to_cancel.append(pool.pop(u))\n                        if found:\n                            break\n")]),
+    # round 5: R08.12 .. R08.15, R08.5 on lazily evaluated iterables
+    dict(name='R08.13 scheduler name misspelled in the hand-over test (seed C08-h1)', rules=('R08.13',), edits=[
+        (_U, "            if 'agent.scheduler' in repr(self) or \\\n", "            if 'agent.scheduling' in repr(self) or \\\n")]),
+    dict(name='R08.13 executor name misspelled in the hand-over test', rules=('R08.13',), edits=[
+        (_U, "               'agent.executing' in repr(self):\n", "               'agent.executor' in repr(self):\n")]),
+    dict(name='R08.13 hand-over test on the uid with a kind nobody has', rules=('R08.13',), edits=[
+        (_U, _HND, "            if self.uid.startswith(('agent_scheduler', 'agent_executing')):\n                self.control_cb(topic, msg)\n                return\n")]),
+    dict(name='R08.13 hand-over test with `and`', rules=('R08.13',), edits=[
+        (_U, _HND, "            if 'agent.scheduler' in repr(self) and \\\n               'agent.executing' in repr(self):\n                self.control_cb(topic, msg)\n                return\n")]),
+    dict(name='R08.13 early return for everything but the scheduler', rules=('R08.13',), edits=[
+        (_U, _HND, "            if 'agent.scheduler' not in repr(self):\n                return\n            self.control_cb(topic, msg)\n            return\n")]),
+    dict(name='R08.13 hand-over test on the class name in the wrong case', rules=('R08.13',), edits=[
+        (_U, _HND, "            ctype = self.ctype\n            if 'agent.Scheduler' in ctype or 'agent.executing' in ctype:\n                self.control_cb(topic, msg)\n                return\n")]),
+    dict(name='R08.12 break of the level search dedented out of the hit branch (seed C08-h2)', rules=('R08.12',), edits=[
+        (_S, "                                del self._waitpool[priority][uid]\n                                break\n", "                                del self._waitpool[priority][uid]\n                            break\n")]),
+    dict(name='R08.12 level search in early-exit form leaves on a miss', rules=('R08.12',), edits=[
+        (_S, _CBR, "                    for uid in data:\n                        for priority in self._waitpool:\n                            task = self._waitpool[priority].get(uid)\n                            if not task:\n                                break\n                            to_cancel.append(task)\n                            del self._waitpool[priority][uid]\n")]),
+    dict(name='R08.12 level search pops with a default and leaves whatever it got', rules=('R08.12',), edits=[
+        (_S, _CBR, "                    for uid in data:\n                        for pool in self._waitpool.values():\n                            task = pool.pop(uid, None)\n                            if task is not None:\n                                to_cancel.append(task)\n                            break\n")]),
+    dict(name='R08.12 level search: hit test of the popped entry inverted', rules=('R08.12',), edits=[
+        (_S, _CBR, "                    for uid in data:\n                        for pool in self._waitpool.values():\n                            task = pool.pop(uid, None)\n                            if task is None:\n                                break\n                            to_cancel.append(task)\n")]),
+    dict(name='R08.14 break dedented out of the level search into the loop over the uids', rules=('R08.14',), edits=[
+        (_S, "                                del self._waitpool[priority][uid]\n                                break\n", "                                del self._waitpool[priority][uid]\n                        break\n")]),
+    dict(name='R08.14 executor: an unknown uid ends the request (seed C08-h4)', rules=('R08.14',), edits=[
+        (_E, _EXL, "            for tid in arg['uids']:\n                task = self.get_task(tid)\n                if not task:\n                    # not our task, nothing to do\n                    return\n                self.cancel_task(task)\n")]),
+    dict(name='R08.14 executor: an unknown uid breaks the loop', rules=('R08.14',), edits=[
+        (_E, _EXL, "            for tid in arg['uids']:\n                task = self.get_task(tid)\n                if task is None:\n                    break\n                self.cancel_task(task)\n")]),
+    dict(name='R08.14 executor: returns after the first task it cancelled', rules=('R08.14',), edits=[
+        (_E, _EXL, "            for tid in arg['uids']:\n                task = self.get_task(tid)\n                if task:\n                    self.cancel_task(task)\n                    return\n")]),
+    dict(name='R08.14 raptor backlog: only the first match of a queue is taken', rules=('R08.14',), edits=[
+        (_S, "                        to_cancel.append(task)\n                        self._raptor_tasks[queue].remove(task)\n", "                        to_cancel.append(task)\n                        self._raptor_tasks[queue].remove(task)\n                        break\n")]),
+    dict(name='R08.14 raptor backlog: search ends at the first queue with a match', rules=('R08.14',), edits=[
+        (_S, "                        to_cancel.append(task)\n                        self._raptor_tasks[queue].remove(task)\n", "                        to_cancel.append(task)\n                        self._raptor_tasks[queue].remove(task)\n                    if matches:\n                        break\n")]),
+    dict(name='R08.5 raptor backlog selection as a generator over the list being pruned (seed C08-h3)', rules=('R08.5',), edits=[
+        (_S, "                    matches = [t for t in self._raptor_tasks[queue]\n                                       if t['uid'] in uids]\n", "                    matches = (t for t in self._raptor_tasks[queue]\n                                       if t['uid'] in uids)\n")]),
+    dict(name='R08.5 raptor backlog selection by filter() over the list being pruned', rules=('R08.5',), edits=[
+        (_S, _RAP, "                for queue in self._raptor_tasks:\n                    for task in filter(lambda t: t['uid'] in uids,\n                                       self._raptor_tasks[queue]):\n                        to_cancel.append(task)\n                        self._raptor_tasks[queue].remove(task)\n")]),
+    dict(name='R08.5 raptor backlog: generator over an alias of the list being pruned', rules=('R08.5',), edits=[
+        (_S, _RAP, "                for queue in self._raptor_tasks:\n                    backlog = self._raptor_tasks[queue]\n                    for task in (t for t in backlog if t['uid'] in uids):\n                        to_cancel.append(task)\n                        backlog.remove(task)\n")]),
+    dict(name='R08.5 watcher enumerates the live watch list', rules=('R08.5',), edits=[
+        (_P, "        for task in list(to_watch):\n", "        for _, task in enumerate(to_watch):\n")]),
+    dict(name='R08.15 client replay drops the notified state (seed C08-h6)', rules=('R08.15',), edits=[
+        (_T, _PSD, "                        passed = passed[:-1]\n")]),
+    dict(name='R08.15 client replay keeps the first instead of the last state', rules=('R08.15',), edits=[
+        (_T, _PSD, "                        passed = passed[:1]\n")]),
+    dict(name='R08.15 client replay: the last state popped off', rules=('R08.15',), edits=[
+        (_T, _PSD, "                        passed.pop()\n")]),
 ]
 
 SILENT = [
@@ -2269,4 +3067,39 @@ SILENT = [
         (_S, "    def _schedule_incoming(self):\n", "    def _pull_waiting(self, uid):\n        for pool in self._waitpool.values():\n            if uid in pool:\n                return pool.pop(uid)\n        return None\n\n    def _schedule_incoming(self):\n")]),
     dict(name='wait pool search per uid over sorted levels, guard as early continue', edits=[
         (_S, _CBR, "                    for uid in data:\n                        for priority in sorted(self._waitpool):\n                            task = self._waitpool[priority].get(uid)\n                            if not task:\n                                continue\n                            to_cancel.append(task)\n                            del self._waitpool[priority][uid]\n                            break\n")]),
+    # round 5
+    dict(name='hand-over test: repr and the two answers bound to names', edits=[
+        (_U, _HND, "            who = repr(self)\n            sched = 'agent.scheduler' in who\n            execu = 'agent.executing' in who\n            if sched or execu:\n                self.control_cb(topic, msg)\n                return\n")]),
+    dict(name='hand-over test on the component type, early return form', edits=[
+        (_U, _HND, "            if 'agent.scheduler' not in self.ctype and \\\n               'agent.executing' not in self.ctype:\n                return\n            self.control_cb(topic, msg)\n            return\n")]),
+    dict(name='hand-over test nested, one component kind per test', edits=[
+        (_U, _HND, "            if 'agent.scheduler' in repr(self):\n                self.control_cb(topic, msg)\n                return\n            elif '.executing.' in type(self).__module__:\n                self.control_cb(topic, msg)\n                return\n")]),
+    dict(name='hand-over test on the uid prefix of the component kinds', note='uids are generated from the component kind of the factory table', edits=[
+        (_U, _HND, "            if self.uid.startswith(('agent_scheduling', 'agent_executing')):\n                self.control_cb(topic, msg)\n                return\n")]),
+    dict(name='level search: pop with a default, hit tested against None', edits=[
+        (_S, _CBR, "                    for uid in data:\n                        for pool in self._waitpool.values():\n                            task = pool.pop(uid, None)\n                            if task is not None:\n                                to_cancel.append(task)\n                                break\n")]),
+    dict(name='level search: entry remembered in a local, collected after the loop', edits=[
+        (_S, _CBR, "                    for uid in data:\n                        found = None\n                        for priority in self._waitpool:\n                            if uid in self._waitpool[priority]:\n                                found = self._waitpool[priority].pop(uid)\n                                break\n                        if found:\n                            to_cancel.append(found)\n")]),
+    dict(name='level search: for / else with a log line for the miss', edits=[
+        (_S, _CBR, "                    for uid in data:\n                        for priority in self._waitpool:\n                            task = self._waitpool[priority].get(uid)\n                            if task:\n                                to_cancel.append(task)\n                                del self._waitpool[priority][uid]\n                                break\n                        else:\n                            self._log.debug('not waiting: %s', uid)\n")]),
+    dict(name='loop over the uids left when nobody waits at all', note='an empty wait pool holds none of the named tasks', edits=[
+        (_S, "                    for uid in data:\n                        for priority in self._waitpool:\n", "                    for uid in data:\n                        if not self._waitpool:\n                            break\n                        for priority in self._waitpool:\n")]),
+    dict(name='executor loop: unknown uid tested against None, early continue', edits=[
+        (_E, _EXL, "            uids = list(arg['uids'])\n            for tid in uids:\n                task = self.get_task(tid)\n                if task is None:\n                    self._log.debug('not my task: %s', tid)\n                    continue\n                self.cancel_task(task)\n")]),
+    dict(name='executor loop left on termination', note='differs only while the component shuts down', edits=[
+        (_E, _EXL, "            for tid in arg['uids']:\n                if self._term.is_set():\n                    break\n                task = self.get_task(tid)\n                if task:\n                    self.cancel_task(task)\n")]),
+    dict(name='raptor backlog: selection by a generator that is materialised first', edits=[
+        (_S, "                    matches = [t for t in self._raptor_tasks[queue]\n                                       if t['uid'] in uids]\n", "                    matches = list(t for t in self._raptor_tasks[queue]\n                                     if t['uid'] in uids)\n")]),
+    dict(name='raptor backlog: generator copied into a list by the loop header', edits=[
+        (_S, "                    matches = [t for t in self._raptor_tasks[queue]\n                                       if t['uid'] in uids]\n                    for task in matches:\n", "                    matches = (t for t in self._raptor_tasks[queue]\n                                       if t['uid'] in uids)\n                    for task in list(matches):\n")]),
+    dict(name='raptor backlog: generator over a copy of the backlog', edits=[
+        (_S, _RAP, "                for queue in self._raptor_tasks:\n                    backlog = self._raptor_tasks[queue]\n                    for task in (t for t in list(backlog) if t['uid'] in uids):\n                        to_cancel.append(task)\n                        backlog.remove(task)\n")]),
+    dict(name='watcher enumerates a copy of the watch list', edits=[
+        (_P, "        for task in list(to_watch):\n", "        for _, task in enumerate(list(to_watch)):\n")]),
+    dict(name='client replay: last state re-wrapped', edits=[
+        (_T, _PSD, "                        passed = [passed[-1]]\n")]),
+    dict(name='client replay: everything in front of the last state deleted', edits=[
+        (_T, _PSD, "                        del passed[:-1]\n")]),
+    dict(name='client replay: negative index spelled with len()', edits=[
+        (_T, _PSD, "                        last = len(passed) - 1\n                        passed = passed[last:]\n")]),
 ]
